@@ -206,6 +206,7 @@ func typeTag(t types.Type) *Term {
 func fieldHeapKey(t types.Type, i int) (key string, sort string) {
 	st := t.Underlying().(*types.Struct)
 	key = fmt.Sprintf("H_%s_%s", mangleType(t), st.Field(i).Name())
+	heapValType[key] = st.Field(i).Type()
 	return key, arraySort("Int", sortOf(st.Field(i).Type()))
 }
 
@@ -213,14 +214,34 @@ func sortTag(s string) string {
 	return strings.NewReplacer("(", "", ")", "", " ", "_").Replace(s)
 }
 
-// elemHeapKey names the 2-D array holding slice/array elements of sort s.
-func elemHeapKey(s string) (key string, sort string) {
-	return "EH_" + sortTag(s), arraySort("Int", arraySort("Int", s))
+// heapClass: element and cell heaps are keyed by SMT sort, except that pointer-like values get
+// their own heaps ("Ref"), so that reference well-formedness can be stated per heap.
+func heapClass(t types.Type) string {
+	if isPointerLike(t) {
+		return "Ref"
+	}
+	return sortTag(sortOf(t))
 }
 
-// cellHeapKey names the array for pointers to non-struct, non-array values of sort s.
-func cellHeapKey(s string) (key string, sort string) {
-	return "CH_" + sortTag(s), arraySort("Int", s)
+// heapValType remembers a representative Go type of the values stored in each heap array.
+var heapValType = map[string]types.Type{}
+
+// elemHeapKey names the 2-D array holding slice/array elements of type t.
+func elemHeapKey(t types.Type) (key string, sort string) {
+	key = "EH_" + heapClass(t)
+	if _, ok := heapValType[key]; !ok {
+		heapValType[key] = t
+	}
+	return key, arraySort("Int", arraySort("Int", sortOf(t)))
+}
+
+// cellHeapKey names the array for pointers to non-struct, non-array values of type t.
+func cellHeapKey(t types.Type) (key string, sort string) {
+	key = "CH_" + heapClass(t)
+	if _, ok := heapValType[key]; !ok {
+		heapValType[key] = t
+	}
+	return key, arraySort("Int", sortOf(t))
 }
 
 func isPointerLike(t types.Type) bool {
